@@ -22,6 +22,7 @@ PROPERTY = "C11"
 FUNCTIONS = ["AnsiFormatter.format/remove_format/add_style", "PlainFormatter.format/remove_format/add_style", "StyleConverter.convert", "Output.write/write_line/write_raw/write_line_raw",
              "IO.write*/error*/indent/increment_indent", "SectionOutput.write", "Indent.__init__/__exit__", "Output.indent/increment_indent"]
 PART = {}
+EXTRA_BOUNDS = "also: an escaped '<' piece; every message written under indentation 3 on a decorated and a plain output; a style added to one formatter is unknown to fresh formatters; per-call style on a text with plain '<'; styles completed in place after a first use (first use with 0/3 attributes); section_indent: 2 (thorough 3) operations on two prefilled sections with indentation scopes 0/1/4 through the terminal emulator."
 BOUNDS = {"quick": "messages = T1 <open i> T2 <open j> T3 </close j> T4 </close i> T5 with text pieces from a 6-piece menu (incl. '<', '>', newline, non-ASCII, 'a<b') and tags from {none, <info>, <b>, <fg=red;options=bold>, <zz> (unknown), <late> (added with add_style)}; "
                    "styles: 11 foreground x {none, red} background x 2^7 attributes through 3 routes; newline law: every reflected line-writing method x texts <= 3 chars over {x,space,e-acute,-}; indentation: 12 nesting shapes of depth <= 3, every amount in [0,4], every exit normal/exceptional",
           "thorough": "11 x 11 backgrounds, 6 choices of the outer text pieces with both tags symbolic, nesting depth 4"}
